@@ -158,6 +158,7 @@ struct Config {
     int caseTimeoutSecs = 120;   // watchdog per case (hang => inconclusive)
     int minUnits = 0;            // minimum number of unit segments (after segment 0)
     int fuzzMaxUnits = 64;
+    long maxShrinkExecs = 200000; double maxShrinkSecs = 90;   // shrink budget (then the best tape so far is kept)
 };
 
 using Property = std::function<void(const Tape&, Ctx&)>;
@@ -363,7 +364,7 @@ inline int run(int argc, char** argv, Config cfg, Property prop) {
     // ---- search
     bool inconclusive = false;
     if (!noSearch && st.violations == 0) {
-        Tape lastFail; Ctx* lastFailCtx = nullptr; std::string lastMsg, lastDesc; bool anyFail = false; bool shrinking = false;
+        double failAt = 0; Tape lastFail; Ctx* lastFailCtx = nullptr; std::string lastMsg, lastDesc; bool anyFail = false; bool shrinking = false;
         long effSeed = seed * 1000 + shard;
         { std::ostringstream ps; ps << "seed=" << effSeed << " max_success=" << maxCases << " max_size=" << T.maxSize << " max_discard_ratio=1000"; setenv("RC_PARAMS", ps.str().c_str(), 1); }
         auto segGen  = rc::gen::container<Seg>(cfg.K, rc::gen::resize(100, rc::gen::arbitrary<uint32_t>()));
@@ -374,11 +375,17 @@ inline int run(int argc, char** argv, Config cfg, Property prop) {
             if (!anyFail) {
                 st.evaluations++;
                 if (st.executed >= minCases && elapsed() > softSecs) { st.skippedBudget++; st.evaluations--; return; }
-            } else st.shrinkExecs++;
+            } else {
+                // shrink budget: rapidcheck's greedy shrinking restarts its candidate enumeration after every
+                // accepted step and can take hours on a 100+ word tape; once the budget is used up every further
+                // candidate "passes" at once, so rapidcheck stops at the best counterexample found so far.
+                if (st.shrinkExecs >= cfg.maxShrinkExecs || elapsed() - failAt > cfg.maxShrinkSecs) return;
+                st.shrinkExecs++;
+            }
             Ctx c; c.prop = cfg.prop; c.wantDesc = anyFail || st.samples.size() < 4;
             runOne(prop, t, c, cfg);
             if (!anyFail) account(st, t, c);
-            if (c.failed) { anyFail = true; lastFail = t; lastMsg = c.msg; lastDesc = c.desc.str(); }
+            if (c.failed) { if (!anyFail) failAt = elapsed(); anyFail = true; lastFail = t; lastMsg = c.msg; lastDesc = c.desc.str(); }
             RC_ASSERT(!c.failed);
         });
         (void)lastFailCtx; (void)shrinking;
